@@ -18,7 +18,7 @@ func init() { core.Register("C07", run) }
 func run(c *core.Ctx) {
 	// cedar logs every handshake step at INFO through the default logger
 	slog.SetDefault(slog.New(slog.NewTextHandler(io.Discard, &slog.HandlerOptions{Level: slog.LevelError})))
-	c.Assume("servers are real cedar ServerHandshake endpoints whose SessionCache the harness replaces to model a restart; a broken exchange is realised in two ways: the server closes after the client's first message, or it reads the message and never answers while the client's context deadline (80 ms) fires")
+	c.Assume("servers are real cedar ServerHandshake endpoints whose SessionCache the harness replaces to model a restart; a broken exchange is realised in two ways: the server closes after the client's first message, or it reads the message and never answers while the client's context ends (cancelled when the request has been read; deadline as backstop)")
 	c.Assume("behaviours that drop sessions are also run with the cached sessions marked SetInherited(true) (the mark of sessions imported from the parent daemon or a claim)")
 	c.Assume("the statement does not oblige a client to reuse a session: a full handshake where reuse was allowed is a permitted divergence (counted), not a failure")
 	if sessreal.ReplayFile(c, "C07") {
